@@ -116,7 +116,7 @@ func HarnessC13Safe() {
 
 // runaway recursion ends in an execution error (not in stack exhaustion)
 func HarnessC13Recursion() {
-	graph := verifChoice(3)  // 0: r->r   1: a->b->a   2: a->b->c->a
+	graph := verifChoice(5)  // 0: r->r   1: a->b->a   2: a->b->c->a   3, 4: the same through parameter DEFAULT expressions
 	route := verifChoice(3)  // 0 local, 1 imported, 2 imported under alias
 	verifObserve("graph", graph)
 	verifObserve("route", route)
@@ -127,10 +127,14 @@ func HarnessC13Recursion() {
 		lib = "{% macro a() export %}{{ a() }}{% endmacro %}"
 	case 1:
 		lib = "{% macro a() export %}{{ b() }}{% endmacro %}{% macro b() export %}x{{ a() }}{% endmacro %}"
-	default:
+	case 2:
 		lib = "{% macro a() export %}{{ b() }}{% endmacro %}{% macro b() export %}{{ c() }}{% endmacro %}{% macro c() export %}{{ a() }}{% endmacro %}"
+	case 3: // the recursion happens while the arguments are bound, not in the body
+		lib = "{% macro a(x=a()) export %}[{{ x }}]{% endmacro %}"
+	default:
+		lib = "{% macro a(x=b()) export %}[{{ x }}]{% endmacro %}{% macro b(y=a()) export %}({{ y }}){% endmacro %}"
 	}
-	imports := []string{"a", "a, b", "a, b, c"}[graph]
+	imports := []string{"a", "a, b", "a, b, c", "a", "a, b"}[graph]
 	set := NewSet("verif", &memLoader{files: map[string]string{"lib": lib}})
 	var tpl *Template
 	var err error
@@ -152,4 +156,30 @@ func HarnessC13Recursion() {
 	out, err2 := tpl.Execute(nil)
 	verifAssert(err2 != nil, "runaway macro recursion must end in an execution error")
 	verifAssert(out == "", "failed execution must not return output")
+}
+
+// a macro that calls itself by its own name (with a base case) behaves the same defined locally,
+// imported, and imported under an alias only
+func HarnessC13SelfName() {
+	n := int(verifByte() & 3)
+	m := c13Letter()
+	lib := "{% macro r(n) export %}" + m + "{{ n }}{% if n %}{{ r(n - 1) }}{% endif %}{% endmacro %}"
+	set := NewSet("verif", &memLoader{files: map[string]string{"lib": lib}})
+	want := ""
+	for i := n; i >= 0; i-- {
+		want += m + itoa(i)
+	}
+	for route, src := range []string{
+		lib + "{{ r(n) }}",
+		"{% import \"lib\" r %}{{ r(n) }}",
+		"{% import \"lib\" r as x %}{{ x(n) }}",
+		"{% import \"lib\" r as x %}{% set r = 5 %}{{ x(n) }}",
+	} {
+		tpl, err := set.FromString(src)
+		verifAssert(err == nil, "compile")
+		out, err2 := tpl.Execute(Context{"n": n})
+		verifObserve("route", route)
+		verifObserve("out", out)
+		verifAssert(err2 == nil && out == want, "a macro calling itself by name must behave the same locally, imported and under an alias")
+	}
 }
